@@ -922,7 +922,6 @@ def _identity(x):
 @_formats('type-reference-tail -> type-word "." type-reference-tail')
 @_formats("field-reference -> snake-reference field-reference-tail*")
 @_formats('abbreviation -> "(" snake-word ")"')
-@_formats("additive-expression-right -> additive-operator times-expression")
 @_formats(
     "additive-expression-right* -> additive-expression-right"
     "                              additive-expression-right*"
@@ -1011,6 +1010,16 @@ def _identity(x):
 def _concatenate(*elements):
     """Concatenates all arguments with no delimiters."""
     return "".join(elements)
+
+
+@_formats("additive-expression-right -> additive-operator times-expression")
+def _additive_expression_right(operator, operand):
+    """Concatenates a binary +/- and its right operand."""
+    # "a - -b" must not be rendered as "a--b": "--" would start a documentation
+    # token.
+    if operator == "-" and operand.startswith("-"):
+        return operator + " " + operand
+    return operator + operand
 
 
 @_formats("equality-expression-right -> equality-operator additive-expression")
